@@ -82,15 +82,18 @@ Section Carrier.
     apply orb_prop in Hor. destruct Hor as [Hd|Ht].
     - (* the triangle is written directly *)
       apply andb_prop in Hd. destruct Hd as [Hd Hop]. apply andb_prop in Hd. destruct Hd as [Hu Hc].
-      apply eqb_prop in Hu.
       assert (Eaddr : forall i j, 0 <= i < rows c -> 0 <= j < rows c -> maddr c i j = r_pc k + i + j * r_ldc k).
       { intros i j Hi Hj. apply orb_prop in Hc. destruct Hc as [Hc|Hc]; [apply Z.leb_le in Hc; lia|].
         apply andb_prop in Hc. destruct Hc as [Hp Ha]. apply Z.eqb_eq in Hp.
         pose proof (agree_spec _ _ _ _ _ _ Ha i j Hi Hj). unfold maddr. lia. }
-      assert (Etri : forall i j, in_triangle upper i j = (if r_uplo k =? ch_U then i <=? j else j <=? i)).
-      { intros i j. unfold in_triangle. rewrite Hu. reflexivity. }
+      assert (Etri : forall i j, 0 <= i < rows c -> 0 <= j < rows c ->
+                                 in_triangle upper i j = (if r_uplo k =? ch_U then i <=? j else j <=? i)).
+      { intros i j Hi Hj. unfold in_triangle. apply orb_prop in Hu. destruct Hu as [Hu|Hu].
+        - apply Z.leb_le in Hu. assert (i = 0) by lia. assert (j = 0) by lia. subst i j.
+          destruct upper, (r_uplo k =? ch_U); reflexivity.
+        - apply eqb_prop in Hu. rewrite Hu. reflexivity. }
       split.
-      + intros i j Hi Hj Htri. rewrite (Eaddr i j Hi Hj). rewrite Etri in Htri.
+      + intros i j Hi Hj Htri. rewrite (Eaddr i j Hi Hj). rewrite (Etri i j Hi Hj) in Htri.
         rewrite rk_ref_at by (try assumption; lia).
         unfold BlasC13L3Crit.rk_cell, BlasC13L3Crit.rk_math. cbv zeta.
         assert (Ev : forall x y : R, x = y -> (if herm && (i =? j) then re x else x) = (if herm && (i =? j) then re y else y))
@@ -100,19 +103,22 @@ Section Carrier.
           rewrite !(op_is_spec R rzero radd rmul cj _ _ _ _ _ _ Hop) by lia. reflexivity.
         * f_equal. unfold mval. rewrite Hcj. cbn [cjif]. rewrite (Eaddr i j Hi Hj). reflexivity.
       + intros p Hp. apply rk_ref_other; [lia|].
-        intros i j Hi Hj Htri E. apply Hp. exists i, j. rewrite Etri.
+        intros i j Hi Hj Htri E. apply Hp. exists i, j. rewrite Etri by lia.
         split; [lia|]. split; [lia|]. split; [exact Htri|]. rewrite Eaddr by lia. exact E.
     - (* the transposed output: the mirror triangle of the transposed / conjugated product *)
       apply andb_prop in Ht. destruct Ht as [Ht Hop]. apply andb_prop in Ht. destruct Ht as [Hu Hc].
-      apply eqb_prop in Hu.
       assert (Eaddr : forall i j, 0 <= i < rows c -> 0 <= j < rows c -> maddr c i j = r_pc k + j + i * r_ldc k).
       { intros i j Hi Hj. apply orb_prop in Hc. destruct Hc as [Hc|Hc]; [apply Z.leb_le in Hc; lia|].
         apply andb_prop in Hc. destruct Hc as [Hp Ha]. apply Z.eqb_eq in Hp.
         pose proof (agree_spec _ _ _ _ _ _ Ha i j Hi Hj). unfold maddr. lia. }
-      assert (Etri : forall i j, in_triangle upper i j = (if r_uplo k =? ch_U then j <=? i else i <=? j)).
-      { intros i j. unfold in_triangle. rewrite Hu. destruct upper; reflexivity. }
+      assert (Etri : forall i j, 0 <= i < rows c -> 0 <= j < rows c ->
+                                 in_triangle upper i j = (if r_uplo k =? ch_U then j <=? i else i <=? j)).
+      { intros i j Hi Hj. unfold in_triangle. apply orb_prop in Hu. destruct Hu as [Hu|Hu].
+        - apply Z.leb_le in Hu. assert (i = 0) by lia. assert (j = 0) by lia. subst i j.
+          destruct upper, (r_uplo k =? ch_U); reflexivity.
+        - apply eqb_prop in Hu. rewrite Hu. destruct upper; reflexivity. }
       split.
-      + intros i j Hi Hj Htri. rewrite (Eaddr i j Hi Hj). rewrite Etri in Htri.
+      + intros i j Hi Hj Htri. rewrite (Eaddr i j Hi Hj). rewrite (Etri i j Hi Hj) in Htri.
         rewrite rk_ref_at by (try assumption; lia).
         unfold BlasC13L3Crit.rk_cell, BlasC13L3Crit.rk_math. cbv zeta.
         rewrite (Z.eqb_sym j i).
@@ -126,7 +132,7 @@ Section Carrier.
           -- apply rmul_comm.
         * f_equal. unfold mval. rewrite Hcj. cbn [cjif]. rewrite (Eaddr i j Hi Hj). reflexivity.
       + intros p Hp. apply rk_ref_other; [lia|].
-        intros i j Hi Hj Htri E. apply Hp. exists j, i. rewrite Etri.
+        intros i j Hi Hj Htri E. apply Hp. exists j, i. rewrite Etri by lia.
         split; [lia|]. split; [lia|]. split; [exact Htri|]. rewrite Eaddr by lia. exact E.
   Qed.
 End Carrier.
